@@ -93,7 +93,7 @@ func keyOfLabel(id string) (key string, groupNode bool, ok bool) {
 	rest := id[i+1:]
 	switch {
 	case strings.HasPrefix(rest, "name="):
-		return t + "/" + strings.TrimSuffix(rest[len("name="):], "]"), false, true
+		return t + "/" + univ.ModelName(strings.TrimSuffix(rest[len("name="):], "]")), false, true
 	case strings.HasPrefix(rest, "group="):
 		j := strings.LastIndexByte(rest, ']')
 		if j < 0 {
